@@ -22,11 +22,30 @@ use crate::error::Result;
 ///
 /// Similar to [`OneOrMany`](crate::common::OneOrMany) except instances are guaranteed to be unique,
 /// and only immutable references are allowed.
-#[derive(Clone, Hash, PartialEq, Eq, PartialOrd, Ord, Deserialize, Serialize)]
+#[derive(Clone, Hash, PartialEq, Eq, PartialOrd, Ord, Serialize)]
 #[serde(transparent)]
 pub struct OneOrSet<T>(OneOrSetInner<T>)
 where
   T: KeyComparable;
+
+impl<'de, T> Deserialize<'de> for OneOrSet<T>
+where
+  T: KeyComparable + Deserialize<'de>,
+{
+  fn deserialize<D>(deserializer: D) -> core::result::Result<Self, D::Error>
+  where
+    D: de::Deserializer<'de>,
+  {
+    // Normalize a one-element array to the `One` variant like every constructor does, so that equal content always
+    // compares equal (`One(x) != Set([x])`) no matter how the value was obtained.
+    Ok(Self(match OneOrSetInner::<T>::deserialize(deserializer)? {
+      OneOrSetInner::Set(set) if set.len() == 1 => {
+        OneOrSetInner::One(set.into_vec().pop().expect("infallible OneOrSet deserialize"))
+      }
+      inner => inner,
+    }))
+  }
+}
 
 // Private to prevent creations of empty `Set` variants.
 #[derive(Clone, Debug, Hash, PartialEq, Eq, PartialOrd, Ord, Deserialize, Serialize)]
